@@ -25,7 +25,7 @@ PROP = "C03"
 
 EVIDENCE = {
     "rule": "one evaluation = one simulated call history of one constitutive object (material-point machine: 6..24 trial/commit/reject operations on a batch of material points; or one FE job with the monitoring wrapper between body and material); non-trivial = at least one derivative probe at a state with non-zero committed state variables, or a reused dirty out= buffer, or a rejected trial followed by a commit; distinct = distinct (model, operation sequence shape, probe outcome classes)",
-    "probes_expected": ["fd-hessian-probe", "fd-gradient-probe", "probe-at-stored-state", "reject-then-commit", "out-buffer-dirty", "mixed-block-probe", "kink-discarded", "job-umat-call-monitored", "plastic-loading-point", "unloading-point", "hessian-first-at-new-state", "poisoned-call-in-between", "parameters-reassigned", "parameters-as-arrays"],
+    "probes_expected": ["fd-hessian-probe", "fd-gradient-probe", "probe-at-stored-state", "reject-then-commit", "out-buffer-dirty", "mixed-block-probe", "kink-discarded", "job-umat-call-monitored", "plastic-loading-point", "unloading-point", "hessian-first-at-new-state", "poisoned-call-in-between", "parameters-reassigned", "parameters-as-arrays", "parameters-in-another-stress-unit"],
     "clauses_sampled_only": ["for stateless hyperelastic models evaluated without out= the derivative check is sampling of deformation gradients (pure function); only the call protocol (idempotence, inputs untouched, buffer reuse) is history"],
     "components": {
         "real": ["felupe.constitution (hand-coded, tensortrax, composite, mixed wrappers, small-strain framework)", "tensortrax", "numpy"],
@@ -161,6 +161,8 @@ def generate(seed, tier, k):
         "out_dirty": r.random() < 0.5,
         # half of the points of the batch follow another path (loading and unloading points in one call)
         "hetero": r.random() < 0.4,
+        # the same model in another stress unit (all parameters of stress dimension scaled)
+        "pscale": r.choice([1e-9, 1e-6, 1e6]) if r.random() < 0.25 else None,
         # parameter study on one object: public parameter attributes re-assigned between two operations
         "reparam": {"at": r.randrange(1, nops), "factor": r.choice([0.5, 1.5, 2.0])} if name in REPARAM and r.random() < 0.4 else None,
         "parallel": r.random() < 0.15 and name in ("NeoHooke", "NeoHookeCompressible", "ThreeField", "Volumetric", "LinearElasticLargeStrain"),
@@ -279,14 +281,14 @@ class Probe:
         for k, (a, b) in enumerate(zip(g1c, g2)):
             if a is None or b is None:
                 continue
-            ok, rel = close_exact_twin(a, np.asarray(b), rtol=1e-12, atol=1e-13 * (1 + float(np.abs(a).max()) if a.size else 1))
+            ok, rel = close_exact_twin(a, np.asarray(b), rtol=1e-12, atol=1e-13 * (float(np.abs(a).max()) if a.size else 0.0) + 1e-300)
             if not ok:
                 self.V("out-buffer" if dirty else "idempotent", f"{self.model}.gradient: {'result depends on what the reused out= buffer contained' if dirty else 'repeated call gives different output'} (output {k}, rel {rel:.2e})", site=f"{self.model}.gradient")
         h2 = self.call("hessian", x, False)
         for k, (a, b) in enumerate(zip(h1c, h2)):
             if a is None or b is None:
                 continue
-            ok, rel = close_exact_twin(a, np.asarray(b), rtol=1e-12, atol=1e-13 * (1 + float(np.abs(a).max()) if a.size else 1))
+            ok, rel = close_exact_twin(a, np.asarray(b), rtol=1e-12, atol=1e-13 * (float(np.abs(a).max()) if a.size else 0.0) + 1e-300)
             if not ok:
                 self.V("out-buffer" if dirty else "idempotent", f"{self.model}.hessian: {'result depends on what the reused out= buffer contained' if dirty else 'repeated call gives different output'} (block {k}, rel {rel:.2e})", site=f"{self.model}.hessian")
         return g1c, h1c
@@ -302,7 +304,7 @@ class Probe:
             W = neo_hooke_energy(x[0], p["mu"])
             Wold = x[-1][0]
             band = 1e-3 * (p["m"] + p["beta"] * np.maximum(W, Wold))
-            return bool(np.any((np.abs(W - Wold) < band) & (Wold > 1e-12)))
+            return bool(np.any((np.abs(W - Wold) < band) & (Wold > 1e-12 * float(p["mu"]))))
         return False
 
     def fd(self, x, g0, h0):
@@ -374,7 +376,7 @@ class Probe:
                     e[hh] = float(np.abs(Ad - g).max())
                 err = min(e.values())
                 sc = float(np.abs(Ad).max()) + float(np.abs(gs[1e-6][i]).max() if gs[1e-6][i] is not None else 0.0)
-                if err > 2e-6 * sc + 1e-8 * scale_all + 1e-12:
+                if err > 2e-6 * sc + 1e-8 * scale_all + 1e-300:
                     if abs(e[1e-5] - e[1e-6]) > 0.25 * max(e.values()):
                         self.log.count("kink-discarded")
                         continue
@@ -400,20 +402,32 @@ class Probe:
         d /= np.abs(d).max()
         e = {}
         Pd = np.einsum("ij...,ij...->...", np.asarray(g0[0]), d)
+        W0 = self.umat.function([F, x[-1]])[0]
+        mod = 0.0
         for hh in (1e-5, 1e-6):
             Wp = self.umat.function([F + hh * d, x[-1]])[0]
             Wm = self.umat.function([F - hh * d, x[-1]])[0]
             e[hh] = float(np.abs(Pd - (Wp - Wm) / (2 * hh)).max())
+            if hh == 1e-5:
+                mod = float(np.abs(Wp + Wm - 2 * W0).max()) / hh**2  # d : A : d, the stiffness scale
         self.log.count("fd-gradient-probe")
         err = min(e.values())
         sc = float(np.abs(Pd).max()) + float(np.abs(np.asarray(g0[0])).max())
-        if err > 2e-6 * sc + 1e-9:
+        if err > 2e-6 * sc + 1e-9 * max(mod, 1e-300):
             self.V("fd-gradient", f"{self.model}: stress : d differs from the central difference of the energy by {err:.3e} (scale {sc:.3e})", site=f"{self.model}.gradient")
 
 
 # ----------------------------------------------------------------------------------------
+POINT_STRESS_KEYS = dict(gen.STRESS_KEYS, **{"MS:linear_elastic": ["lmbda", "mu"], "Volumetric": ["bulk"], "LinearElasticTensorNotation": ["E"], "LinearElasticPlaneStress": ["E"], "LinearElasticPlaneStrain": ["E"], "TF:Visco": ["mu", "bulk", "mu_v", "eta"], "NI:Visco": ["mu", "bulk", "mu_v", "eta"], "TF:OgdenRoxburgh": ["mu", "bulk", "m"], "NI:OgdenRoxburgh": ["mu", "bulk", "m"], "MAD:total_lagrange": ["mu", "bulk"], "MAD:updated_lagrange": ["mu", "bulk"]})
+
+
 def run_point(doc, log):
-    spec = dict(doc["umat"])
+    spec = copy.deepcopy(doc["umat"])
+    if doc.get("pscale") and spec["name"] in POINT_STRESS_KEYS:
+        for key_ in POINT_STRESS_KEYS[spec["name"]]:
+            if spec["p"].get(key_) is not None:
+                spec["p"][key_] = gen._scale(spec["p"][key_], doc["pscale"])
+        log.count("parameters-in-another-stress-unit")
     if doc.get("parallel"):
         spec["parallel"] = True
     model = doc["model"]
@@ -514,7 +528,7 @@ def run_point(doc, log):
                         a, b_ = np.broadcast_arrays(a, b_)
                     except ValueError:
                         pass
-                ok, rel = close_exact_twin(a, np.asarray(b_), rtol=1e-10, atol=1e-12 * (1 + float(np.abs(np.asarray(b_)).max())))
+                ok, rel = close_exact_twin(a, np.asarray(b_), rtol=1e-10, atol=1e-12 * float(np.abs(np.asarray(b_)).max()) + 1e-300)
                 if not ok:
                     raise Violation(PROP, "call-history", f"{model}.hessian requested first at a new state (inputs updated in place, no gradient call in between) differs from a fresh object's result (block {kb}, rel {rel:.2e})", site=f"{model}.hessian-first")
             log.count("hessian-first-at-new-state")
